@@ -181,6 +181,29 @@ def m_cldr(c, binp, tier, modes=("keys", "closure"), tag=""):
                               expect_cases="distinct" if mode == "keys" else None))
 
 
+SWEEP_INV = ["Uniform", "RelevantSufficient", "KnownIsDeterministic", "ClassLaws", "DirUniform", "EmitCase"]
+
+
+def m_sweep(c, binp, tier, parts=("known", "und"), tag="", stride=1):
+    """the whole (language, script, region) universe through the real code, decided per equivalence class (MC_Sweep.tla)"""
+    data_env()
+    for part in parts:
+        res = run_model("%s-sweep-%s%s" % (c.prop, part, tag), "MC_Sweep", {"Part": part}, SWEEP_INV, binp=binp, workers=12,
+                        expect_cases="sweep", timeout=7200, env_extra={"VERIF_SWEEP_STRIDE": str(stride), "VERIF_SEED": str(c.seed)})
+        c.add_model(res)
+        if "hang" in res or "abort" in res:
+            continue
+        st = res.get("summary", {}).get("stats", {})
+        if st.get("sweep_universe") != 1 or st.get("sweep_class_missing") or st.get("sweep_class_unreadable") or st.get("sweep_without_universe"):
+            raise ToolError("sweep %s: class table incomplete: %s" % (part, {k: v for k, v in st.items() if k.startswith("sweep")}))
+        want = st.get("sweep_languages", 0) * st.get("sweep_scripts", 0) * st.get("sweep_regions", 0)
+        if not want or st.get("sweep_triples") != want:
+            raise ToolError("sweep %s: %s triples swept, universe has %s" % (part, st.get("sweep_triples"), want))
+        c.extra_cov["universe_triples_swept"] = c.extra_cov.get("universe_triples_swept", 0) + want
+        c.extra_cov.setdefault("sweep_parts", []).append({"part": part + tag, "languages": st.get("sweep_languages"), "scripts": st.get("sweep_scripts"),
+                                                            "regions": st.get("sweep_regions"), "classes": st.get("sweep_class", st.get("sweep_dir_class")), "stride": stride})
+
+
 # ------------------------------------------------------------------------------------------------
 # trace steps (impl -> spec)
 # ------------------------------------------------------------------------------------------------
@@ -232,6 +255,8 @@ def C01(tier, seed):
     m_subtags(c, binp, tier, light=True)
     m_object(c, binp, tier, edges=True, hist=False, full=False)
     m_cldr(c, binp, tier, modes=("closure",))
+    # "total for every (language, script, region)": the whole universe (panics are caught per row and reported with the triple)
+    m_sweep(c, binp, tier, parts=("und", "dir") if tier == "quick" else ("known", "und", "dir"))
     if tier == "thorough":
         m_impl(c, binp, tier)      # the loop-level progress argument (ranking function) + deep replays
     traces(c, binp, "parse", tier)
@@ -294,9 +319,10 @@ def C06(tier, seed):
     c = Check("C06", tier, seed)
     binp = build_harness(ALL)
     m_cldr(c, binp, tier, modes=("keys", "closure"))
+    m_sweep(c, binp, tier, parts=("known", "und"))
     traces(c, binp, "likely", tier, quick_n=3000, thorough_n=40000)
-    return c.finish(rule="all 8219 CLDR keys plus the closure (every language x {absent, scripts keyed with it, known others, unknown} x same for regions; und x all scripts x all regions) through likelysubtags::maximize and LanguageIdentifier::maximize; allowed answers computed by Maximize over the table TLC loads from data/likelySubtags.json",
-                    assumptions=ASSUME_COMMON + ["the full 3e8-triple universe is sampled by the random driver, not enumerated"], exhaustive=False)
+    return c.finish(rule="the WHOLE universe (7142 CLDR languages + und + unknown languages) x (164 CLDR scripts + absent + unknown) x (259 CLDR regions + absent + unknown), about 3.1e8 triples, through likelysubtags::maximize, each triple mapped to its equivalence class and compared with the answer pattern MC_Sweep.tla derives for the class (class partition, representative independence and sufficiency of the relevant sets are invariants TLC checks on the specification); additionally all 8219 CLDR keys plus the closure (every language x {absent, scripts keyed with it, known others, unknown} x same for regions; und x all scripts x all regions) through likelysubtags::maximize and LanguageIdentifier::maximize; allowed answers computed by Maximize over the table TLC loads from data/likelySubtags.json",
+                    assumptions=ASSUME_COMMON + ["the universe is the CLDR subtag universe plus representatives of unknown subtags; two subtags outside the data are assumed to behave like any other two (checked on the specification, measured on the code for the representatives swept)"], exhaustive=True)
 
 
 def C07(tier, seed):
@@ -316,10 +342,11 @@ def C08(tier, seed):
     binp = build_harness(ALL)
     m_laws(c, tier)
     m_cldr(c, binp, tier, modes=("closure",))
+    m_sweep(c, binp, tier, parts=("known", "und"))
     m_object_likely(c, binp, tier)
     traces(c, binp, "hist", tier, quick_n=2500)
     traces(c, binp, "likely", tier, quick_n=1500)
-    return c.finish(rule="minimize laws (meaning preserved, no foreign subtag, first of {l, l-r, l-s}, idempotent, min.max=min, never longer) model-checked for every table over small universes; on the real table every closure triple through likelysubtags::minimize and the method, compared with MinimizeF",
+    return c.finish(rule="the whole 3.1e8-triple universe through likelysubtags::minimize compared per equivalence class with the pattern of MinimizeF (MC_Sweep.tla; the laws hold for the representative of every class on the specification); minimize laws (meaning preserved, no foreign subtag, first of {l, l-r, l-s}, idempotent, min.max=min, never longer) model-checked for every table over small universes; on the real table every closure triple through likelysubtags::minimize and the method, compared with MinimizeF",
                     assumptions=ASSUME_COMMON, exhaustive=True)
 
 
@@ -382,9 +409,11 @@ def C14(tier, seed):
     off = build_harness(("serde", "macros"))
     m_cldr(c, on, tier, modes=("dir",), tag="-likely-on")
     m_cldr(c, off, tier, modes=("dir",), tag="-likely-off")
+    m_sweep(c, on, tier, parts=("dir",), tag="-likely-on")
+    m_sweep(c, off, tier, parts=("dir",), tag="-likely-off")
     traces(c, on, "likely", tier, quick_n=2000, tag="-on")
     traces(c, off, "likely", tier, quick_n=2000, tag="-off")
-    return c.finish(rule="all 709 CLDR layout locales and script/language/region probes through character_direction() in both feature configurations (two harness builds); allowed directions derived in TLA+ from the layout files",
+    return c.finish(rule="every identifier of the 3.1e8-triple universe through character_direction() in both configurations, compared per (language class, script class) with the directions AllowedDir permits (MC_Sweep.tla, part dir); all 709 CLDR layout locales and script/language/region probes through character_direction() in both feature configurations (two harness builds); allowed directions derived in TLA+ from the layout files",
                     assumptions=ASSUME_COMMON, exhaustive=True)
 
 
